@@ -22,7 +22,10 @@
    and mutants that are no known defects (negative controls only): Mut_VotePassBeforeRefund, Mut_RefundNotFromPool
    (LedgerOps.Finalize), Mut_FreezeLookupById (the freeze flag looked up under the asset id: only tokens stay frozen),
    Mut_SuicideClearsEquity (a self-destructing contract loses what it holds of an asset), Mut_BlockFullKeepsPartialBox
-   (a box whose later sub transaction does not fit into the block is dropped without undoing what ran before).
+   (a box whose later sub transaction does not fit into the block is dropped without undoing what ran before),
+   Mut_BadBoxKeepsVotes, Mut_BadBoxKeepsFirstEquity (a box given up for an invalid later sub transaction keeps votes /
+   first-time holders' equity of the sub transactions before), Mut_ZeroStartSkipped (LedgerOps.Finalize: the vote pass
+   skips an account that owned nothing at the start of the block).
 
    Block gas.  The header of the block under construction may name a small gas limit (GasLimit action, values BGL;
    otherwise the limit is ample).  The miner takes a candidate only if its whole gas limit is still available
@@ -42,6 +45,8 @@ CONSTANTS Ctx,        \* context record (see LedgerOps)
           ACodes, AIds,                \* ... the asset codes (issue, replenish, freeze) and asset ids (replenish, transfer) they name
           BGL,                         \* block gas limits a header may name (empty: every block has ample gas)
           BoxFrom, BoxTo,              \* box transactions: box sender, sub transaction sender / recipient
+          BoxSeqs,                     \* boxes of ARBITRARY sub transactions: the sequences of sub transaction templates (MixedBox)
+          SpendFrom,                   \* accounts that send away their whole balance, to the last unit (SpendAll; gas paid by a Payer)
           RewFrom, RewTerms, RewAmt,   \* reward settings: senders, terms, values (LEMO)
           EmptyOK,                     \* blocks without transactions are generated too (needed to walk to a reward block)
           MaxTx, MaxBlk, MaxTot        \* transactions per block, blocks, transactions per behaviour
@@ -88,6 +93,8 @@ SubsRun(b, q, i, left) ==
   ELSE IF left < q[i].gl THEN [r |-> "full", n |-> i - 1]
   ELSE IF ~PlainValid(b, q[i]) THEN [r |-> "bad", n |-> i - 1]
   ELSE SubsRun(Plain(Ctx, Devs, b, Exec(q[i])), q, i + 1, left - Gas[q[i].k])
+RECURSIVE KindGas(_, _)
+KindGas(q, i) == IF i > Len(q) THEN 0 ELSE Gas[q[i].k] + KindGas(q, i + 1)
 \* what the miner does with candidate t when `left` gas is left in the block:
 \* r = "inc" (packaged), "bad" (discarded as invalid), "full" (does not fit: stays in the pool), "stop" (not tried any more);
 \* n = number of sub transactions that ran before a box was given up
@@ -100,7 +107,7 @@ Resolve(b, t, left) ==
        ELSE LET sr == SubsRun(Charge(b, t.p, t.gl * t.gp), t.subs, 1, left - t.gl) IN     \* the box's gas is held while the subs run
             IF sr.r = "ok"
             THEN [r |-> "inc", n |-> sr.n,
-                  t |-> [t EXCEPT !.inc = TRUE, !.gu = Gas["box"] + Len(t.subs) * Gas["xfer"], !.subs = [i \in 1..Len(t.subs) |-> Exec(t.subs[i])]]]
+                  t |-> [t EXCEPT !.inc = TRUE, !.gu = Gas["box"] + KindGas(t.subs, 1), !.subs = [i \in 1..Len(t.subs) |-> Exec(t.subs[i])]]]
             ELSE [r |-> sr.r, t |-> t, n |-> sr.n]
   ELSE IF PlainValid(b, t) THEN [r |-> "inc", t |-> Exec(t), n |-> 0] ELSE [r |-> "bad", t |-> t, n |-> 0]
 \* Mut_BlockFullKeepsPartialBox: the box that turned out not to fit is dropped, but its gas purchase and the n sub
@@ -110,10 +117,19 @@ PartialBox(b, t, n) ==
       b2 == Subs(Ctx, Devs, b1, [i \in 1..n |-> Exec(t.subs[i])], 1)
   IN [b2 EXCEPT !.fees = b.fees]
 
+\* Mut_BadBoxKeepsVotes / Mut_BadBoxKeepsFirstEquity: the box that is given up because a later sub transaction is invalid
+\* leaves behind the candidate votes its earlier sub transactions set / the equity they gave to accounts that held nothing
+\* under that id before (negative controls of the roll-back configurations)
 \* Snapshot blocks are never scenario blocks (the election is C10 / C13's subject; the setup chain carries an empty one).
 Do(t0) == LET r == Resolve(blk, t0, gas.left)  t == r.t IN
           /\ nb < MaxBlk /\ ntx < MaxTx /\ ntot < MaxTot /\ t0.k \in Kinds /\ ~IsSnapshot(st, blk.h)
           /\ blk' = IF r.r = "full" /\ t0.k = "box" /\ "Mut_BlockFullKeepsPartialBox" \in Devs THEN PartialBox(blk, t0, r.n)
+                    ELSE IF r.r = "bad" /\ t0.k = "box" /\ "Mut_BadBoxKeepsVotes" \in Devs
+                    THEN [blk EXCEPT !.s.votes = PartialBox(blk, t0, r.n).s.votes]
+                    ELSE IF r.r = "bad" /\ t0.k = "box" /\ "Mut_BadBoxKeepsFirstEquity" \in Devs
+                    THEN LET pb == PartialBox(blk, t0, r.n) IN
+                         [blk EXCEPT !.s.eq = [i \in DOMAIN blk.s.eq |-> [a \in DOMAIN blk.s.eq[i] |->
+                                                  IF blk.s.eq[i][a] = 0 THEN pb.s.eq[i][a] ELSE blk.s.eq[i][a]]]]
                     ELSE ApplyTx(Ctx, Devs, blk, t)
           /\ gas' = IF t.inc THEN [gas EXCEPT !.left = @ - t.gu] ELSE gas
           /\ ntx' = ntx + 1 /\ ntot' = ntot + 1 /\ last' = t /\ UNCHANGED <<st, nb>>
@@ -122,6 +138,13 @@ GL(g, ok) == IF g = "low" THEN 20000 ELSE IF g = "high" THEN 60000 ELSE ok
 Transfer(f, t, a, p, g) == /\ (g = "ok" \/ (p = f /\ a = 100)) /\ (p = f \/ (p \in Payers /\ p # t))
                            /\ Do(Tx("xfer", f, t, p, a * LEMO, GL(g, 30000), 1)) /\ UNCHANGED nf
 Vote(v, x)          == "vote" \in Kinds /\ Do(Tx("vote", v, x, v, 0, 40000, 1)) /\ UNCHANGED nf
+\* Voters at balance ZERO.  A vote whose gas another account pays (reimbursed transaction): the voter may own nothing at
+\* all - its weight is 0 now and everything it receives later counts for its candidate.  SpendAll: an account sends away
+\* its whole balance to the last unit (gas paid by another account) - its weight drops to 0 and grows again when it is
+\* refunded.  Both make balance change logs whose old / new value is exactly 0.
+VoteBy(v, x, p)     == "voteby" \in Kinds /\ p # v /\ Do(Tx("vote", v, x, p, 0, 40000, 1)) /\ UNCHANGED nf
+SpendAll(f, t, p)   == /\ "xfer" \in Kinds /\ p # f /\ t # f /\ p # t /\ blk.s.bal[f] > 0
+                       /\ Do(Tx("xfer", f, t, p, blk.s.bal[f], 30000, 1)) /\ UNCHANGED nf
 Register(x, a)      == st.reg[x] = "no" /\ Do(Tx("reg", x, "", x, a * LEMO, 130000, 1)) /\ UNCHANGED nf
 TopUp(x, a)         == st.reg[x] # "no" /\ Do(Tx("topup", x, "", x, a * LEMO, 130000, 1)) /\ UNCHANGED nf
 Unregister(x)       == "unreg" \in Kinds /\ Do(Tx("unreg", x, "", x, 0, 130000, 1)) /\ UNCHANGED nf
@@ -144,6 +167,15 @@ Freeze(f, v, code)  == "freeze" \in Kinds /\ Do(ATx(IF v THEN "freeze" ELSE "unf
 SetReward(f, k, a)  == "setrew" \in Kinds /\ Do([Tx("setrew", f, Ctx.rc, f, a * LEMO, 60000, 1) EXCEPT !.x = k]) /\ UNCHANGED nf
 Box(f, sf, stt, a, n, gp) ==
   "box" \in Kinds /\ Do([Tx("box", f, "", f, 0, 100000, gp) EXCEPT !.subs = [i \in 1..n |-> Tx("xfer", sf, stt, sf, a * LEMO, 30000, 1)]]) /\ UNCHANGED nf
+\* A box of ARBITRARY sub transactions (templates [k, f, t, amt, c, id]; amounts of the LEMO kinds in LEMO).  On the mining
+\* path a box whose LATER sub transaction is invalid is given up as a whole: everything its earlier sub transactions did -
+\* registrations, deposit top-ups, votes, unregistrations; issue / replenish / transfer of an asset to somebody who NEVER
+\* held that id - is rolled back (Resolve: "bad"; ApplyTx: a transaction that is not packaged changes nothing), whatever
+\* other transactions of the same block touch the same accounts afterwards.
+SubGL(k) == CASE k = "xfer" -> 30000 [] k = "vote" -> 40000 [] k \in {"reg", "topup", "unreg"} -> 130000 [] OTHER -> 100000
+SubTx(r) == [Tx(r.k, r.f, r.t, r.f, IF r.k \in {"xfer", "reg", "topup"} THEN r.amt * LEMO ELSE r.amt, SubGL(r.k), 1) EXCEPT !.c = r.c, !.id = r.id]
+MixedBox(f, gp, q) ==
+  "box" \in Kinds /\ Do([Tx("box", f, "", f, 0, 300000, gp) EXCEPT !.subs = [i \in 1..Len(q) |-> SubTx(q[i])]]) /\ UNCHANGED nf
 EndBlock == /\ nb < MaxBlk /\ (ntx > 0 \/ EmptyOK) /\ ~IsSnapshot(st, blk.h)
             /\ st' = Finalize(Ctx, Devs, blk).s /\ blk' = Begin(st') /\ ntx' = 0 /\ nb' = nb + 1 /\ last' = NoTx
             /\ gas' = [lim |-> 0, left |-> Ample] /\ UNCHANGED <<ntot, nf>>
@@ -151,6 +183,9 @@ EndBlock == /\ nb < MaxBlk /\ (ntx > 0 \/ EmptyOK) /\ ~IsSnapshot(st, blk.h)
 Init == st = Init0 /\ blk = Begin(Init0) /\ ntx = 0 /\ nb = 0 /\ ntot = 0 /\ last = NoTx /\ gas = [lim |-> 0, left |-> Ample] /\ nf = 0
 Next == \/ \E f \in From, t \in XTo, a \in XAmt, p \in Payers \cup From, g \in {"ok", "low"} : Transfer(f, t, a, p, g)
         \/ \E v \in Voters, x \in Cands : Vote(v, x)
+        \/ \E v \in Voters, x \in Cands, p \in Payers : VoteBy(v, x, p)
+        \/ \E f \in SpendFrom, t \in XTo, p \in Payers : SpendAll(f, t, p)
+        \/ \E f \in BoxFrom, q \in BoxSeqs : MixedBox(f, 1, q)
         \/ \E x \in Cands, a \in RegAmt : Register(x, a)
         \/ \E x \in Cands, a \in RegAmt : TopUp(x, a)
         \/ \E x \in Cands : Unregister(x)
@@ -190,15 +225,26 @@ NothingForbiddenIncluded == ~blk.bad
 Divisible(s, i) == s.idc[i] # NONE /\ Ctx.assets[s.idc[i]].div
 \* somebody's equity under some id decreases only by that holder's own packaged transfer of that id, by no more than the
 \* amount named (an indivisible id: the whole of it)
+\* (a packaged box: by that holder's own transfers of that id among its sub transactions, by no more than they name together)
+Parts(t) == IF t.k = "box" THEN t.subs ELSE <<t>>
+RECURSIVE OwnNamed(_, _, _, _)
+OwnNamed(q, a, i, j) == IF j > Len(q) THEN 0
+                        ELSE (IF q[j].k = "axfer" /\ q[j].f = a /\ q[j].id = i /\ q[j].amt > 0 THEN q[j].amt ELSE 0) + OwnNamed(q, a, i, j + 1)
 OnlyOwnEquityDecreases ==
   [][\A i \in DOMAIN blk.s.eq : \A a \in DOMAIN blk.s.eq[i] : blk'.s.eq[i][a] < blk.s.eq[i][a] =>
-        /\ last'.k = "axfer" /\ last'.inc /\ last'.f = a /\ last'.id = i
-        /\ IF Divisible(blk.s, i) THEN last'.amt >= blk.s.eq[i][a] - blk'.s.eq[i][a] ELSE blk'.s.eq[i][a] = 0]_vars
+        /\ last'.inc /\ \E j \in 1..Len(Parts(last')) : LET p == Parts(last')[j] IN p.k = "axfer" /\ p.f = a /\ p.id = i
+        /\ IF Divisible(blk.s, i) THEN OwnNamed(Parts(last'), a, i, 1) >= blk.s.eq[i][a] - blk'.s.eq[i][a] ELSE blk'.s.eq[i][a] = 0]_vars
 \* the recorded supply of a code changes only by its issuer's issue / replenish of a positive amount (an indivisible
 \* asset: by one id) and by a holder destroying its own equity under one of the code's ids
+\* (a packaged box: by the sum of what its issue / replenish sub transactions add; the boxes generated destroy nothing)
+RECURSIVE Minted(_, _, _)
+Minted(q, code, j) == IF j > Len(q) THEN 0
+                      ELSE (IF q[j].k \in {"issue", "repl"} /\ q[j].c = code /\ q[j].f = Ctx.assets[code].iss /\ q[j].amt > 0
+                            THEN (IF Ctx.assets[code].div THEN q[j].amt ELSE 1) ELSE 0) + Minted(q, code, j + 1)
 SupplyChangesOnlyByIssuerOrHolder ==
   [][\A code \in DOMAIN Ctx.assets : blk'.s.sup[code] # blk.s.sup[code] =>
        LET div == Ctx.assets[code].div IN
+       \/ /\ last'.k = "box" /\ last'.inc /\ blk'.s.sup[code] = blk.s.sup[code] + Minted(last'.subs, code, 1)
        \/ /\ last'.k \in {"issue", "repl"} /\ last'.c = code /\ last'.f = Ctx.assets[code].iss /\ last'.amt > 0
           /\ blk'.s.sup[code] = blk.s.sup[code] + (IF div THEN last'.amt ELSE 1)
        \/ /\ last'.k = "axfer" /\ last'.t = Ctx.zero /\ last'.amt > 0 /\ blk.s.idc[last'.id] = code
